@@ -186,6 +186,7 @@ type FX struct {
 	curBlock *ssa.BasicBlock
 	modRefs []T // refs this function may modify (from its modifies clause)
 	retCovers []T
+	recoverTags []T // type tags of the values returned by recover() in this function (ghost panicking: some tag != 0)
 	anteCovers map[string][]T // per ensures label: (path ∧ antecedent) at each return
 	anteOrder  []string
 	labels *labelState
